@@ -172,6 +172,16 @@ func runC20(t testing.TB, c C20Case) (key, what string, classes []string) {
 			args = append(args, "-ctrl-i", src)
 		}
 	}
+	if strings.HasPrefix(c.Exit, "tab-") && c.Flag == "" && !has("ctrli-missing") {
+		// Ctrl+I (Tab) has something to insert: a directory of function files
+		// that takes a moment to convert
+		src := filepath.Join(dir, "ctrl-i-src")
+		os.Mkdir(src, 0o755)
+		for i := 0; i < 40; i++ {
+			os.WriteFile(filepath.Join(src, fmt.Sprintf("f%02d.sh", i)), []byte(fmt.Sprintf("# TABDOC: f%02d does a thing\nf%02d() { echo %d; }\n", i, i, i)), 0o644)
+		}
+		args = append(args, "-ctrl-i", src)
+	}
 	// which faults can the program reach, given the order of start-up steps
 	reach := map[string]bool{}
 	shortCircuit := c.Flag == "-h" || c.Flag == "-print-default-template"
@@ -280,6 +290,11 @@ func runC20(t testing.TB, c C20Case) (key, what string, classes []string) {
 		switch c.Exit {
 		case "ctrl-d":
 			proc.Type("\x04")
+		case "tab-ctrl-d":
+			// an insert is requested and the session is ended in the same breath
+			proc.Type("\t\x04")
+		case "tab-ctrl-c":
+			proc.Type("\t\x03")
 		default:
 			proc.Type("\x03")
 		}
@@ -415,6 +430,11 @@ func c20Cases(thorough bool) []C20Case {
 		cs = append(cs, C20Case{TTY: true, Termios: tg, Exit: exits[n%2], GOGC: "1"})
 		n++
 	}
+	// Tab (insert) immediately followed by the key that ends the session: the
+	// insert runs beside the exit, so this is repeated
+	for i := 0; i < 16; i++ {
+		cs = append(cs, C20Case{TTY: true, Termios: toggles[i%len(toggles)], Exit: []string{"tab-ctrl-d", "tab-ctrl-c"}[i%2], GOGC: []string{"", "1"}[(i/2)%2]})
+	}
 	for _, fl := range []string{"-h", "-print-default-template", "-print-ctrl-i"} {
 		for _, tty := range []bool{true, false} {
 			cs = append(cs, C20Case{TTY: tty, Flag: fl, Termios: toggles[n%len(toggles)]})
@@ -507,7 +527,7 @@ func TestC20Random(t *testing.T) {
 	ev.RapidChecks(ev.Scale(48, 1600))
 	names := []string{"ECHO", "ICANON", "ISIG", "OPOST", "IXON", "ICRNL", "IEXTEN", "ONLCR"}
 	rapid.Check(t, func(rt *rapid.T) {
-		c := C20Case{TTY: rapid.IntRange(0, 4).Draw(rt, "tty") != 0, Exit: rapid.SampledFrom([]string{"ctrl-c", "ctrl-d"}).Draw(rt, "exit")}
+		c := C20Case{TTY: rapid.IntRange(0, 4).Draw(rt, "tty") != 0, Exit: rapid.SampledFrom([]string{"ctrl-c", "ctrl-d", "tab-ctrl-d", "tab-ctrl-c"}).Draw(rt, "exit")}
 		for _, n := range names {
 			if rapid.IntRange(0, 2).Draw(rt, n) == 0 {
 				c.Termios = append(c.Termios, n)
